@@ -25,6 +25,11 @@ CLAIMS = {
   note="Trusted: engine, go/ssa, solvers; integers mathematical; the clock is instantaneous within one call (all readings of one call are equal) - the clock-window assumption of DESIGN.md section 4 with delta = 0; x509.CreateCertificate / ed25519 specs; ghost storage contract. Instants exactly equal to now in the second root's comparisons are left open, as the property statement does. Strict 'next begins before current ends' is proved for freshly minted pairs, the weak inequality in general (boundary instant). The from-empty clause needs lifetime + not-after skew >= 2ns (a 1ns window has no half to shift by).",
   design="5 C08", technique="contracts, WP over go/ssa, SMT linear integer arithmetic (z3, cvc5)"),
 
+ "C09": dict(
+  text="Deductive inductive-invariant proof over the real rotation.RotateRootCertificates and decideWhatToMake (closed-boundary decision regions and the exact bootstrap windows are proved from the code), and a ghost lemma rotation.lemmaTrustContinuity over that contract: [base] a bootstrap establishes the invariant J (current valid at the call instant, next begins before current ends, next lasts one more lifetime and is one lifetime wide); [step] for every stored pair satisfying J at the previous call instant t0 and every call instant t in [t0, t0 + lifetime), the new pair satisfies J and is the old pair or the promotion of the old next (the start-over and re-mint regions are unreachable); current is replaced only when its successor is valid; at every instant in [t0, t] one of the two trusted roots is valid; [nodewindow] the arithmetic of the node clause: after a promotion at most delta after the promoted root became valid, the new next begins no earlier than s + not-before skew + (span - delta)/2 for every enrollment instant s <= t, and no later than the promoted root ends.",
+  note="Trusted: engine, go/ssa, solvers; integers mathematical; instantaneous clock within one call; same option values along the history, positive lifetime, non-positive not-before skew, non-negative not-after skew; storage reliable along the history (a failed call changes nothing - C13). The history-level statement is the induction over calls with the proved base and step (standard induction rule, not itself machine-checked). That a node's chains carry exactly the validity windows of their issuing roots is the C04 certificate-template clause of authorizeNodeCommon.",
+  design="5 C09", technique="contracts + ghost induction lemma (inductive invariant), WP over go/ssa, SMT linear integer arithmetic"),
+
  "C16": dict(
   text="Deductive proof over the real getTlsConfigForClient closure, Accept, NewConn, (*Conn).ClientNextProtos / ClientState and GenerateServerCertificates: the protocol list recorded for a connection is the offered ALPN list minus exactly the certificate-preference entries, in order (loop invariant with a counting spec function, any list); Accept hands NewConn exactly the recorded list and state of the ClientInfo allocated for that connection; NewConn and ClientNextProtos copy (fresh backing array, equal contents, nil preserved); client state in a certificate response exists only when the request's client state verified under the stored record's key (C05 clauses).",
   note="Trusted: engine, go/ssa, solvers; the TLS handshake is opaque (crypto/tls runs the GetConfigForClient callback built for this connection and nothing else writes its ClientInfo); tls.ServerConfig and registration.FetchNodeCredentials have trusted (thin) contracts here; types.LoadNodeInformationSetByNodeId trusted (see C05); option closures summarised from options.go each run. That the recorded state equals what the node supplied end-to-end additionally relies on protobuf decode of the ALPN-carried request (modelled) and on the client side (tls.ClientConfigs, not under contract yet).",
